@@ -25,6 +25,14 @@ CHECKS.update({
          'Each case is run twice in the simulator: with a read-only session (EXAMINE, or SELECT of the read-only demo mailbox) executing a random program of every message command, and without that session; the next read-write session must observe identical SELECT counts and per-message flags including \\Recent; mutating commands must answer NO, CLOSE must answer OK, observers must receive no change notifications.',
          'Trusted: simulator determinism (run A and run B differ only by the read-only program); checked by digest re-runs.'),
 })
+CHECKS.update({
+ 'C05': ('exploration', '4/C05', 'exhaustive enumeration of short command programs from 4 start states, then seeded random programs; state model + reveal probes',
+         'All programs of length <= 2 (thorough: <= 3 from the not-authenticated state) over a 38-letter alphabet covering every built-in command, from four start states and with TLS required or not, are executed against the simulated server; a four-state model predicts accept/refuse, three effect-free probes after every letter reveal the real state and which mailbox is selected, and a refused letter must leave state and every mailbox dump unchanged. Longer programs are sampled with seeds. Exhaustive over programs of the stated length, sampling beyond.',
+         'Trusted: the state model (profiles/c05.py), the reveal probes being effect-free, the observer dumps. Schedules are not the variable here (single connection); input chunking is varied in the random part.'),
+ 'C06': ('exploration', '4/C06', 'seeded input generation (grammar-derived, mutated, raw; hostile stored messages) executed in the simulator with a canary connection; answered-within-bound oracle and wall watchdog',
+         'Seeded command lines in the three connection states - template-derived for every command, structurally mutated, and raw bytes - plus hostile stored messages fetched with every attribute and searched with every key, are sent to the simulated server. Oracle: every structurally complete line gets a tagged completion / * BAD / continuation / BYE within 2 virtual seconds, a canary connection keeps getting OK, the connection task never ends with an exception ([SERVERBUG]) and is never closed without BYE; a 5 s wall watchdog per loop iteration turns an infinite loop into a reported hang with its call site.',
+         'Trusted: the completeness judgement for lines containing literal markers is conservative (any doubtful line is not required to be answered); the 5 s wall watchdog. ManageSieve inputs are covered by C19, not here.'),
+})
 NOT_YET = {}
 def main():
     props = [json.loads(l) for l in open(os.path.join(ROOT, 'properties.jsonl'))]
